@@ -60,6 +60,9 @@ CLAIMED = {
     "C33": ("exploration",
             "Token worlds biased to round trips over the same channel for native denominations drawn from a '/'-segment grammar (port-like, channel-like, client-like, hash-like segments): a returning voucher must be accepted and the origin must release exactly the original native from that channel's escrow (bank diff vs model); no return is stuck after the drain.",
             "deterministic simulation: round-trip workloads over a denomination grammar, bank-diff oracle + bounded-liveness drain", "8 C33"),
+    "C36": ("exploration",
+            "Token worlds where users grant ICS-20 transfer authorizations (channel allocations, per-denomination limits incl. unbounded, receiver allow lists, memo lists) and grantees execute transfers through authz MsgExec exactly at / one above / one below the remaining limit, with the entire-balance sentinel, receivers on and off the list, allowed and other memos, channels without allocation, interleaved with ordinary traffic and relay faults. An accepted exec must be allowed by the grant-ledger model; after every block the stored remaining limits equal granted-minus-accepted, exhausted allocations/grants are gone, refused execs leave the grant unchanged.",
+            "deterministic simulation: seeded grantee request sequences around limit boundaries, grant-ledger reference model compared every block", "8 C36"),
     "C41": ("exploration",
             "Token worlds with rate limits administered through the REAL gov module (add/update/reset/remove, binding 0-2% quotas on small-supply vouchers), transfers both ways with success/error acks, timeouts, duplicates, replays, clock jumps across hour boundaries. After every block the stored inflow/outflow/channel value of every rate limit equals a reference model (accepted in the current window minus undone in it, each packet at most once; error-ack receives net zero); accept/refuse agrees with the quota. Window resets are observed (isolated in empty blocks, accepted only as full resets).",
             "deterministic simulation: simulated clock + gov-driven administration + relay faults, rate-limit reference model compared every block", "8 C41"),
